@@ -195,35 +195,90 @@ inductive Op
   | setPtr (slot : Ref) (target : Option Ref)       -- *(void**)slot = yr_arena_ref_to_ptr(target)
   | ptr (b : Nat) (target : Option Ref)             -- write_data(&ptr) + make_ptr_relocatable (emit_with_arg_reloc)
   | poke (at_ : Ref) (bytes : Bytes)                -- memcpy into already allocated memory
+  | ref (slot : Ref)                                -- yr_arena_ptr_to_ref(*(void**) yr_arena_get_ptr(slot))
+  | rt (target : Option Ref)                        -- yr_arena_ptr_to_ref(yr_arena_ref_to_ptr(target))
+  /-- make_ptr_relocatable(slot) and *(void**)slot = yr_arena_ref_to_ptr(target), in either order with no allocation
+      in between, whatever the slot held before (compiler.c: the value.s field of a string external) -/
+  | regPtr (slot : Ref) (target : Option Ref)
 deriving Repr
+
+/-- what a client observes from an operation, free of addresses: the reference an allocation returns,
+    the result of a pointer → reference query -/
+inductive Out
+  | unit
+  | ref (r : Ref)                  -- the YR_ARENA_REF handed back by an allocation
+  | found (r : Option Ref)         -- yr_arena_ptr_to_ref returned 1 with this reference (none = YR_ARENA_NULL_REF)
+  | notFound                       -- yr_arena_ptr_to_ref returned 0
+deriving Repr, DecidableEq, Inhabited
 
 def zeros (n : Nat) : Bytes := List.replicate n 0
 
-/-- one client operation; `newBase` is the allocator's answer should a buffer grow -/
-def step (cfg : Cfg) (newBase : Nat) (a : Arena) : Op → Except Err Arena
-  | .write b bytes => (allocMem cfg newBase a b false bytes).map (·.1)
-  | .zalloc b size => (allocMem cfg newBase a b true (zeros size)).map (·.1)
-  | .struct b size offs => do
-      let (a1, r) ← allocMem cfg newBase a b true (zeros size)
-      pure (makeRelocs a1 b r.off offs)
-  | .reloc b off => .ok (makeRelocs a b 0 [off])
-  | .setPtr slot target => do
-      let p ← refToPtr a.bufs target
-      if InB a slot then pure (setSlot a slot p) else .error .outOfBounds
-  | .ptr b target => do
-      let p ← refToPtr a.bufs target
-      let (a1, r) ← allocMem cfg newBase a b false (leBytes 8 p)
-      pure (makeRelocs a1 b 0 [r.off])
+def queryOut (pr : Bool × Option Ref) : Out := if pr.1 then .found pr.2 else .notFound
+
+/-- one client operation with what the client observes; `newBase` is the allocator's answer should a buffer grow -/
+def exec (cfg : Cfg) (newBase : Nat) (a : Arena) : Op → Except Err (Arena × Out)
+  | .write b bytes =>
+      match allocMem cfg newBase a b false bytes with
+      | .ok (a1, r) => .ok (a1, .ref r)
+      | .error e => .error e
+  | .zalloc b size =>
+      match allocMem cfg newBase a b true (zeros size) with
+      | .ok (a1, r) => .ok (a1, .ref r)
+      | .error e => .error e
+  | .struct b size offs =>
+      match allocMem cfg newBase a b true (zeros size) with
+      | .ok (a1, r) => .ok (makeRelocs a1 b r.off offs, .ref r)
+      | .error e => .error e
+  | .reloc b off => .ok (makeRelocs a b 0 [off], .unit)
+  | .setPtr slot target =>
+      match refToPtr a.bufs target with
+      | .ok p => if InB a slot then .ok (setSlot a slot p, .unit) else .error .outOfBounds
+      | .error e => .error e
+  | .ptr b target =>
+      match refToPtr a.bufs target with
+      | .ok p =>
+        match allocMem cfg newBase a b false (leBytes 8 p) with
+        | .ok (a1, r) => .ok (makeRelocs a1 b 0 [r.off], .ref r)
+        | .error e => .error e
+      | .error e => .error e
   | .poke at_ bytes =>
       if at_.buf < a.bufs.length ∧ at_.off + bytes.length ≤ (a.bufAt at_.buf).data.length then
-        .ok (a.setBuf at_.buf { a.bufAt at_.buf with data := wrBytes (a.bufAt at_.buf).data at_.off bytes })
+        .ok (a.setBuf at_.buf { a.bufAt at_.buf with data := wrBytes (a.bufAt at_.buf).data at_.off bytes }, .unit)
       else .error .outOfBounds
+  | .ref slot =>
+      if InB a slot then .ok (a, queryOut (ptrToRef a.bufs (getSlot a slot))) else .error .outOfBounds
+  | .rt target =>
+      match refToPtr a.bufs target with
+      | .ok p => .ok (a, queryOut (ptrToRef a.bufs p))
+      | .error e => .error e
+  | .regPtr slot target =>
+      match refToPtr a.bufs target with
+      | .ok p => if InB a slot then .ok (setSlot (makeRelocs a slot.buf 0 [slot.off]) slot p, .unit) else .error .outOfBounds
+      | .error e => .error e
+
+/-- one client operation (the arena afterwards) -/
+def step (cfg : Cfg) (newBase : Nat) (a : Arena) (op : Op) : Except Err Arena :=
+  match exec cfg newBase a op with
+  | .ok (a1, _) => .ok a1
+  | .error e => .error e
 
 /-- run a sequence; the i-th operation gets the i-th address of the schedule -/
 def run (cfg : Cfg) : List Nat → Arena → List Op → Except Err Arena
   | _, a, [] => .ok a
   | [], a, op :: ops => do let a1 ← step cfg 0 a op; run cfg [] a1 ops
   | nb :: nbs, a, op :: ops => do let a1 ← step cfg nb a op; run cfg nbs a1 ops
+
+/-- run a sequence and collect what the client observes at every step; the i-th operation gets the
+    i-th address of the allocator's schedule (0 = realloc fails to deliver once the schedule is used up) -/
+def runOut (cfg : Cfg) : List Nat → Arena → List Op → Except Err (Arena × List Out)
+  | _, a, [] => .ok (a, [])
+  | nbs, a, op :: ops =>
+    match exec cfg (nbs.headD 0) a op with
+    | .error e => .error e
+    | .ok (a1, o) =>
+      match runOut cfg nbs.tail a1 ops with
+      | .error e => .error e
+      | .ok (a2, os) => .ok (a2, o :: os)
 
 /-! ## save (yr_arena_save_stream) -/
 
